@@ -22,6 +22,11 @@ def x_obligations(tier):
     for pre in ["h/a/", "h/s/q1/v1/"]:
         o.append(Obl(f"C02-evalrepr[{pre!r}]", M, "eval_repr", env={"VF_PRE": pre}, timeout=170 if tier == "quick" else 600, family="C02-evalrepr",
                      bound="free value = 1..2 letters of a 12-letter quote/escape/control alphabet (solver-enumerated)"))
+    # typing / rebuilding a plain string answers the same after a Sid OBJECT of the same string (forced, non-first type)
+    # went through Sid(): spil's caches on, histories from C13's call alphabet (calls 1-3 first, every call second)
+    for i in (1, 2, 3):
+        o.append(Obl(f"C02-history[after call#{i}]", "xhair.obl.c13", "pair", env={"VF_IDX": str(i), "VF_FIRST": "local"}, timeout=170 if tier == "quick" else 600, family="C02-history",
+                     bound=f"history (call #{i}: a uri / Sid object with a forced type, call j) for every j of the 29-call alphabet of C13, caches on"))
     o.append(Obl("C02-reach", M, "reach_forms", env={"VF_N": "6"}, timeout=150, expect="refute", family="C02-twin"))
     return o
 
@@ -29,5 +34,5 @@ def x_obligations(tier):
 META = {
     "functions": ["spil.sid.sid.StringSid.__eq__/__repr__/copy", "spil.sid.sid.TypedSid.uri/fields/as_query", "spil.sid.core.sid_factory.sid_to_sid/dict_to_sid/sid_factory",
                   "spil.sid.core.sid_resolver.dict_to_type/dict_to_sid/sid_to_dict", "spil.sid.core.query_helper.to_string/to_dict/update/apply_query", "urllib.parse.urlencode/parse_qsl/urlsplit (pure Python, executed symbolically)"],
-    "assumptions": ["query round trip: values non-empty, no whitespace, none of & = + % # ; ? and no '~' (the query syntax's own option prefix)"],
+    "assumptions": ["query round trip: values non-empty, no whitespace, none of & = + % # ; ? and no leading '~' (the query syntax's own option prefix)"],
 }
